@@ -85,8 +85,11 @@ pub fn check_ledger_vs_model(case: &LedgerCase, obs: &mut Obs, what: &CmpWhat, c
 pub fn check_window(case: &LedgerCase, obs: &mut Obs) -> Verdict { check_ledger_vs_model(case, obs, &CmpWhat::all(), classify_windows) }
 
 // ---------- declared superficial losses ----------
-fn declared_strategy(_t: Tier) -> BoxedStrategy<LedgerCase> {
-    let mut p = scen_params();
+fn declared_strategy(_t: Tier) -> BoxedStrategy<LedgerCase> { declared_strategy_for(scen_params()) }
+
+/// Scenarios some of whose sales carry a declared superficial loss (near the computed value, far from it, forced with '!', or a forced 0 =
+/// "not superficial").
+pub fn declared_strategy_for(mut p: ScenParams) -> BoxedStrategy<LedgerCase> {
     p.afs = vec!["", "Spouse", "Kid"]; // declared values on registered sellers are ignored silently; not generated (DESIGN 3.4)
     (scenario_strategy(p), proptest::collection::vec(any::<u16>(), 8)).prop_map(|(mut case, picks)| {
         // give some sales a declared value derived from the computed one; assigned in chronological
@@ -103,9 +106,11 @@ fn declared_strategy(_t: Tier) -> BoxedStrategy<LedgerCase> {
             let computed = m.computed_sfl.clone();
             let is_loss = m.raw_gain.is_some();
             let delta = crate::gen::pick(pk, &["0", "0.0005", "-0.0005", "0.0009", "-0.0009", "0.0011", "-0.0011", "0.01", "-0.01", "-25", "0"]);
-            let force = pk % 5 == 0;
+            let mut force = pk % 5 == 0;
             let mut v = computed.add(&Rat::parse(delta).unwrap());
             if v.is_pos() { v = computed.clone(); }
+            // the user's "this loss is not superficial" override: a forced 0 on a loss the tool computes as superficial
+            if pk % 13 == 4 && is_loss { v = Rat::zero(); force = true; }
             // 10-dp representable; if the computed value does not terminate, truncate it (moves it by < 1e-10)
             let v10 = if v.is_neg() { v.neg().floor_dp(10).neg() } else { v.floor_dp(10) };
             if !is_loss && pk % 7 != 0 { continue; } // declared value on a sale without loss: sometimes
